@@ -658,6 +658,7 @@ pub fn replay_cse(args: &HashMap<String, String>) {
     let outp = args.get("out").expect("--out");
     let builds: Vec<String> = args.get("builds").expect("--builds").split(',').map(|s| s.to_string()).collect();
     let take: usize = args.get("take").map(|s| s.parse().unwrap()).unwrap_or(usize::MAX);
+    let prop = args.get("prop").cloned().unwrap_or_else(|| "C02".to_string());
     let mut vectors = crate::util::read_tlc_vectors(input, "V");
     if vectors.len() > take {
         let step = vectors.len() / take;
@@ -711,7 +712,7 @@ pub fn replay_cse(args: &HashMap<String, String>) {
             rep.nontrivial(&format!("{}|{}", v["tree"], i));
             let got = &obs[i];
             if *got != json!(["ok", want.to_json()]) && got[0] != "slow" {
-                rep.violation(json!({"property": "C02", "kind": "cse-guard-replay", "builds": [b], "env_index": i + 1, "expected": ["ok", want.to_json()],
+                rep.violation(json!({"property": prop, "kind": "cse-guard-replay", "builds": [b], "env_index": i + 1, "expected": ["ok", want.to_json()],
                     "observed": {b.as_str(): r.get("runs").cloned().unwrap_or(r.clone())}, "tree": v["tree"], "model_says_hoistable": v["saturated"],
                     "case": {"source": p.render("*SIGIL*"), "envs": envs.iter().map(|e| e.show()).collect::<Vec<_>>(), "features": format!("{:?}", features(p)),
                         "ast": p.to_json(), "envs_json": envs.iter().map(|e| e.to_json()).collect::<Vec<_>>()}}));
